@@ -88,7 +88,50 @@ def group_fns(g):
     L.append(fn(g, P, 'add_assign_mixed', args=f'&mut self, other: &{aff}',
                 raw=f"    ensures {p}is_sum_of(old(self).v(), other.jv(), final(self).v())",
                 run=add_run('other.jv()', 1), post_ghost=add_ghost('other.jv()'), nosymx=True, subst=(('Self::Affine', aff),), **tr))
+
+    # ---- PartialEq::eq : equality of the points denoted, for any representatives
+    eq_run = dict(
+        tag='"eq"',
+        code='{ let mut c: Vec<Sym> = vec![]; for i in 2..cond_count().min(4) { let (a, b) = cond_sides(i); c.extend(a); c.extend(b); } syms_json(&c) }',
+        spec=f'{{ let p = s0.v(); let q = other.v(); let mut c: Vec<Sym> = vec![]; if cond_count() >= 3 {{ c.extend(flat_vec(&{o["mul"]}(p.x, {o["sq"]}(q.z)))); c.extend(flat_vec(&{o["mul"]}(q.x, {o["sq"]}(p.z)))); }} '
+             f'if cond_count() >= 4 {{ c.extend(flat_vec(&{o["mul"]}(q.y, {p}cube(p.z)))); c.extend(flat_vec(&{o["mul"]}(p.y, {p}cube(q.z)))); }} syms_json(&c) }}',
+    )
+    wrap = (f"""impl vstd::std_specs::cmp::PartialEqSpecImpl for {g} {{
+    open spec fn obeys_eq_spec() -> bool {{ true }}
+    open spec fn eq_spec(&self, other: &{g}) -> bool {{ {p}same_point(self.v(), other.v()) }}
+}}
+impl PartialEq for {g} {{""", "}")
+    L.append(fn(g, f'impl PartialEq for {g}', 'eq', args=f'&self, other: &{g}', raw=f"    ensures ret == {p}same_point(self.v(), other.v())",
+                run=eq_run, wrap=wrap, nosymx=True, **tr))
+    # ---- conversions
+    L.append(fn(g, f'impl From<{aff}> for {g}', 'from', args=f'p: {aff}', ring=False, nosymx=True,
+                raw=f"    ensures p.infinity ==> ret.v().z == {o['zero']}(), !p.infinity ==> ret.v() == p.jv()"))
+    aff_run = dict(
+        tag='if cond_taken(1) { "norm" } else { "aff" }',
+        code=f'{{ let mut c: Vec<Sym> = vec![]; if !r.infinity {{ c.extend(flat_vec(&{o["mul"]}(r.x.v(), {o["sq"]}(p.v().z)))); c.extend(flat_vec(&{o["mul"]}(r.y.v(), {p}cube(p.v().z)))); }} syms_json(&c) }}',
+        spec=f'{{ let mut c: Vec<Sym> = vec![]; if !r.infinity {{ c.extend(flat_vec(&p.v().x)); c.extend(flat_vec(&p.v().y)); }} syms_json(&c) }}',
+    )
+    L.append(fn(aff, f'impl From<{g}> for {aff}', 'from', args=f'p: {g}', run=aff_run, nosymx=True, fresh_actuals={'inv': 'zinv'},
+                raw=f"    ensures {p}is_affine_of(p.v(), ret.x.v(), ret.y.v(), ret.infinity)",
+                place={'aff': (aff + r' \{ x, y, infinity: false \}', 'before'),
+                       'norm': (aff + r' \{ x: p\.x, y: p\.y, infinity: false \}', 'before')}, **tr))
+    L.append(fn(g, P, 'into_affine', args='&self', ring=False, nosymx=True, subst=(('(*self).into()', f'{aff}::from(*self)'),),
+                raw=f"    ensures {p}is_affine_of(self.v(), ret.x.v(), ret.y.v(), ret.infinity)"))
+    A_ = f'impl CurveAffine for {aff}'
+    L.append(fn(aff, A_, 'zero', ring=False, nosymx=True, raw="    ensures ret.infinity"))
+    L.append(fn(aff, A_, 'is_zero', args='&self', ring=False, nosymx=True, raw="    ensures ret == self.infinity"))
+    L.append(fn(aff, A_, 'negate', args='&mut self', ring=False, nosymx=True, raw=f"    ensures final(self).jv() == {p}neg_of(old(self).jv())"))
+    L.append(fn(aff, A_, 'into_projective', args='&self', ring=False, nosymx=True, subst=(('(*self).into()', f'{g}::from(*self)'),),
+                raw=f"    ensures self.infinity ==> ret.v().z == {o['zero']}(), !self.infinity ==> ret.v() == self.jv()"))
+    # ---- trait defaults of CurveProjective instantiated at this type (R6)
+    L.append(fn(g, 're:^pub trait CurveProjective\\b', 'sub_assign',
+                args='&mut self, other: &Self', ring=False, nosymx=True, modkey='',
+                raw=f"    ensures {p}is_sum_of(old(self).v(), {p}neg_of(other.v()), final(self).v())"))
+    L.append(fn(g, 're:^pub trait CurveProjective\\b', 'sub_assign_mixed',
+                args=f'&mut self, other: &{aff}', ring=False, nosymx=True, modkey='', subst=(('Self::Affine', aff),),
+                raw=f"    ensures {p}is_sum_of(old(self).v(), {p}neg_of(other.jv()), final(self).v())"))
     return L
+
 
 
 def symx_group(g):
@@ -105,6 +148,7 @@ impl {aff} {{
     pub fn jv(&self) -> {J} {{ {J} {{ x: self.x.v(), y: self.y.v(), z: if self.infinity {{ {o['zero']}() }} else {{ {o['one']}() }} }} }}
     pub fn fresh(p: &str) -> {aff} {{ {aff} {{ x: {B}::fresh(&format!("{{}}__x", p)), y: {B}::fresh(&format!("{{}}__y", p)), infinity: false }} }}
     pub fn is_zero(&self) -> bool {{ self.infinity }}
+    pub fn zero() -> {aff} {{ {aff} {{ x: {B}::zero(), y: {B}::one(), infinity: true }} }}
 }}
 impl Flat for {J} {{ fn flat(&self, out: &mut Vec<Sym>) {{ self.x.flat(out); self.y.flat(out); self.z.flat(out); }} }}
 """
@@ -125,8 +169,6 @@ def verus_group(u, g):
 impl {aff} {{
     pub open spec fn jv(&self) -> {J} {{ {J} {{ x: self.x.v(), y: self.y.v(), z: if self.infinity {{ {o['zero']}() }} else {{ {o['one']}() }} }} }}
     pub proof fn lemma_in(x: &{aff}) ensures {o['in']}(x.jv().x), {o['in']}(x.jv().y), {o['in']}(x.jv().z) {{ {ina} ax_q_pos(); }}
-    #[verifier::external_body]
-    pub fn is_zero(&self) -> (ret: bool) ensures ret == self.infinity {{ unimplemented!() }}
 }}""")
 
 
@@ -150,8 +192,8 @@ def build(src, workdir, groups=('G1', 'G2')):
           "impl PartialEq for Fq2 { fn eq(&self, o: &Fq2) -> bool { self.v() == o.v() } }",
           "impl Fq2 {"]
     for f in TOWER_FNS:
-        if f['ty'] == 'Fq2' and not f.get('nosymx') and f['name'] != 'inverse':
-            si = rj.symx_spec_impl(f)
+        if f['ty'] == 'Fq2' and not f.get('nosymx'):
+            si = f.get('symx_impl') or rj.symx_spec_impl(f)
             if si:
                 sx.append(si)
     sx.append("}")
@@ -166,6 +208,22 @@ def build(src, workdir, groups=('G1', 'G2')):
         types[G['aff']] = dict(view=G['A'], fields=[('x', G['B']), ('y', G['B'])], mod=G['mod'])
         for f in group_fns(g):
             rj.add_fn(f)
+    # T1 precondition: the two instantiations of curve_impl! must be the same text up to the type names
+    if 'G1' in groups and 'G2' in groups:
+        f1 = {(f['impl'].replace('G1', 'G#'), f['name']): f for f in group_fns('G1')}
+        for f in group_fns('G2'):
+            k = (f['impl'].replace('G2', 'G#'), f['name'])
+            a = f1.get(k)
+            if a is None:
+                continue
+            t1 = ' '.join(u.slice_fn(a['kw'].get('modkey', types[a['ty']]['mod']), a['impl'], a['name']))
+            t2 = ' '.join(u.slice_fn(f['kw'].get('modkey', types[f['ty']]['mod']), f['impl'], f['name']))
+            n1 = re.sub(r'\s+', ' ', t1)
+            n2 = re.sub(r'\s+', ' ', t2.replace('G2', 'G1').replace('Fq2', 'Fq'))
+            if n1 != n2:
+                from vx.weave import Unsupported
+                raise Unsupported(f"transfer T1 void: the G1 and G2 instantiations of {f['name']} differ textually")
+        u.notes.append("T1 text equality of the G1/G2 instantiations checked for %d functions" % len(f1))
     rj.finish()
     return u
 
